@@ -37,7 +37,7 @@ TRUSTED_BASE = [
 ASSUMPTIONS = [
     "backtrack_fits is proved for results with at least as many dims as the template (class fewer_dims_than_template is the known finding F12)",
     "templates have >= 1 dims and every operand pattern the same number of dims (wf_tmplb); schedules are well-formed (wf_schedb)",
-    "completeness of rowspace_eqb is not proved (only soundness by certificate); it rests on L1 agreement with the SVD implementation",
+    "rowspace_eqb is proved sound and complete for rational row-space equality; that numpy's SVD/tolerance code decides the same relation is checked (L1), not proved",
     "element sizes >= 1; exceptions raised inside checks are outside the model",
 ]
 
